@@ -67,9 +67,9 @@ SetObj(e, b, a) ==
        /\ e.tag = "shape" =>
             /\ Chk(y.shape = e.arg, "C37", "shape-is-not-the-given-value", <<e.arg, y.shape>>)
             /\ Chk(y.label = x.label /\ SetOf(y.attrs) = SetOf(x.attrs), "C37", "set-shape-changed-other-attributes", <<x, y>>)
-       /\ e.tag = "style.opacity" =>
-            /\ Chk(Attr(y, "style.opacity") = e.arg, "C37", "style-is-not-the-given-value", <<e.arg, Attr(y, "style.opacity")>>)
-            /\ Chk(y.label = x.label /\ y.shape = x.shape /\ Without(y, "style.opacity") = Without(x, "style.opacity"), "C37", "set-style-changed-other-attributes", <<x, y>>)
+       /\ e.tag \notin {"label", "shape"} =>
+            /\ Chk(Attr(y, e.tag) = e.arg, "C37", "style-is-not-the-given-value", <<e.tag, e.arg, Attr(y, e.tag)>>)
+            /\ Chk(y.label = x.label /\ y.shape = x.shape /\ Without(y, e.tag) = Without(x, e.tag), "C37", "set-style-changed-other-attributes", <<e.tag, x, y>>)
 SetEdge(e, b, a) ==
   /\ Chk(AllObjsSame(b, a), "C37", "set-on-a-connection-changed-an-object", e.key)
   /\ Chk(ELabs(a) = ELabs(b) /\ \A x \in ELabs(b) \ {e.target} : SameEdge(b, a, x), "C37", "set-changed-another-connection", e.key)
@@ -106,6 +106,14 @@ DeleteAttr(e, b, a) ==
        /\ Chk(Attr(y, e.tag) = "~", "C38", "attribute-not-reset", <<e.key, Attr(y, e.tag)>>)
        /\ Chk(y.label = x.label /\ y.shape = x.shape /\ Without(y, e.tag) = Without(x, e.tag), "C38", "deleting-an-attribute-changed-other-attributes", <<x, y>>)
 
+DeleteEdgeAttr(e, b, a) ==
+  /\ Chk(AllObjsSame(b, a), "C38", "deleting-a-connection-attribute-changed-an-object", e.key)
+  /\ Chk(ELabs(a) = ELabs(b) /\ \A x \in ELabs(b) \ {e.target} : SameEdge(b, a, x), "C38", "deleting-a-connection-attribute-changed-another-connection", e.key)
+  /\ e.target \in ELabs(a) =>
+       LET x == Edge(b, e.target) y == Edge(a, e.target) IN
+       /\ Chk(Attr(y, e.tag) = "~", "C38", "connection-attribute-not-reset", <<e.key, Attr(y, e.tag)>>)
+       /\ Chk(<<y.src, y.dst, y.sa, y.da, y.idx>> = <<x.src, x.dst, x.sa, x.da, x.idx>> /\ Without(y, e.tag) = Without(x, e.tag), "C38", "deleting-a-connection-attribute-changed-other-facts-of-the-connection", <<x, y>>)
+
 \* ------------------------------------------------------------------ C39
 Rename(e, b, a) ==
   /\ Chk(Labs(a) = Labs(b), "C39", "rename-lost-or-added-objects", <<Labs(b) \ Labs(a), Labs(a) \ Labs(b)>>)
@@ -139,8 +147,8 @@ Deltas(e, b, a) ==
       Delta(id) == IF \E p \in D : p[1] = id THEN (CHOOSE p \in D : p[1] = id)[2] ELSE id
       Keys == {p[1] : p \in D}
   IN
-  /\ \A x \in Labs(b) \cap Labs(a) : Chk(Obj(a, x).id = Delta(Obj(b, x).id), "C40", "object-id-after-the-edit-differs-from-the-predicted-one", <<e.op, Obj(b, x).id, Obj(a, x).id, Delta(Obj(b, x).id)>>)
-  /\ \A x \in ELabs(b) \cap ELabs(a) : Chk(Edge(a, x).id = Delta(Edge(b, x).id), "C40", "connection-id-after-the-edit-differs-from-the-predicted-one", <<e.op, Edge(b, x).id, Edge(a, x).id, Delta(Edge(b, x).id)>>)
+  /\ \A x \in Labs(b) \cap Labs(a) : Chk(Obj(a, x).id = Delta(Obj(b, x).id), "C40", "object-id-after-the-edit-differs-from-the-predicted-one", <<e.op, Obj(b, x).id, Obj(a, x).id, Delta(Obj(b, x).id), e.arg2>>)
+  /\ \A x \in ELabs(b) \cap ELabs(a) : Chk(Edge(a, x).id = Delta(Edge(b, x).id), "C40", "connection-id-after-the-edit-differs-from-the-predicted-one", <<e.op, Edge(b, x).id, Edge(a, x).id, Delta(Edge(b, x).id), e.arg2>>)
   /\ \A x \in Labs(b) \ Labs(a) : Chk(Obj(b, x).id \notin Keys, "C40", "id-change-predicted-for-a-removed-object", Obj(b, x).id)
   /\ \A x \in ELabs(b) \ ELabs(a) : Chk(Edge(b, x).id \notin Keys, "C40", "id-change-predicted-for-a-removed-connection", Edge(b, x).id)
 
@@ -161,11 +169,12 @@ Edit(e) ==
        /\ (UniqueLabs(b) /\ UniqueLabs(a)) =>
             /\ CASE e.op = "create" -> Create(e, b, a)
                  [] e.op = "create-edge" -> CreateEdge(e, b, a)
-                 [] e.op \in {"set-label", "set-style", "set-shape"} -> SetObj(e, b, a)
+                 [] e.op \in {"set-label", "set-style", "set-shape", "set-attr"} -> SetObj(e, b, a)
                  [] e.op = "set-edge" -> SetEdge(e, b, a)
                  [] e.op = "delete" -> DeleteObj(e, b, a)
                  [] e.op = "delete-edge" -> DeleteEdge(e, b, a)
                  [] e.op = "delete-attr" -> DeleteAttr(e, b, a)
+                 [] e.op = "delete-edge-attr" -> DeleteEdgeAttr(e, b, a)
                  [] e.op = "rename" -> Rename(e, b, a)
                  [] e.op = "move" -> Move(e, b, a)
                  [] e.op = "reconnect" -> Reconnect(e, b, a)
